@@ -111,20 +111,22 @@ def numeric_basis_checks(cx, basis, lo, hi, sig, info):
     for s, e in zip(brk[:-1], brk[1:]):
         for fr in (0.3, 0.71):
             x = s + fr * (e - s)
-            h1 = 1e-6 * scale
-            h2 = 1e-4 * scale
+            # five-point stencils inside the knot span (error O(h^4)); the comparison is relative to the size of the basis values on the stencil
+            h = 2e-3 * (e - s)
             try:
                 d1 = float(basis.get_first_derivative(x))
                 d2 = float(basis.get_second_derivative(x))
-                n1 = (basis(x + h1) - basis(x - h1)) / (2 * h1)
-                n2 = (basis(x + h2) - 2 * basis(x) + basis(x - h2)) / (h2 * h2)
+                fm2, fm1, f0, fp1, fp2 = (float(basis(x + k * h)) for k in (-2, -1, 0, 1, 2))
+                n1 = (-fp2 + 8 * fp1 - 8 * fm1 + fm2) / (12 * h)
+                n2 = (-fp2 + 16 * fp1 - 30 * f0 + 16 * fm1 - fm2) / (12 * h * h)
+                F = max(abs(v) for v in (fm2, fm1, f0, fp1, fp2))
             except impl.Timeout:
                 raise
             except Exception as ex:
                 rep.violation('C10_NoException', dict(sig, basis=type(basis).__name__, exception=type(ex).__name__, call='derivative'), dict(info, x=x, exception=repr(ex)), what='derivative raised %r (%s)' % (ex, info))
                 return
-            ok1 = abs(d1 - n1) <= 1e-5 * max(1.0, abs(n1)) / scale
-            ok2 = abs(d2 - n2) <= 1e-4 * max(1.0, abs(n2)) / scale ** 2 * 10
+            ok1 = abs(d1 - n1) <= 1e-7 * (abs(n1) + F / (e - s))
+            ok2 = abs(d2 - n2) <= 1e-6 * (abs(n2) + F / (e - s) ** 2)
             rep.residual('derivative_agrees', ok1 and ok2)
             if not ok1 or not ok2:
                 rep.violation('C10_DerivativeAgrees', dict(sig, basis=type(basis).__name__, order=1 if not ok1 else 2),
